@@ -47,8 +47,9 @@ def ser_model(nodes):
             out.append(")")
         elif n[0] == "T":
             out.append("T%s;" % cps(n[1]))
-        else:
+        elif n[0] == "C":
             out.append("C%s;" % cps(n[1]))
+        # ("P", target, data): processing instructions exist in the files only; neither the model nor the dumps have them
     return "".join(out)
 
 
@@ -69,9 +70,12 @@ def qn(ns, local):
     return "n%d:%s" % (ns, local)
 
 
-def ser_xml(nodes, top=True):
+def ser_xml(nodes, top=True, sep=""):
+    """`sep`: white space written between the top-level nodes of the file (not part of any DOM or infoset)"""
     out = []
     for n in nodes:
+        if top and out and sep:
+            out.append(sep)
         if n[0] == "E":
             out.append("<" + qn(n[1], n[2]))
             if top:
@@ -84,6 +88,8 @@ def ser_xml(nodes, top=True):
                 out.append("/>")
         elif n[0] == "T":
             out.append(esc(n[1]))
+        elif n[0] == "P":
+            out.append("<?%s %s?>" % (n[1], n[2]))
         else:
             out.append("<!--" + n[1] + "-->")
     return "".join(out)
@@ -122,7 +128,7 @@ def relref(base, target):
 # ------------------------------------------------------------------------------------------------------------------
 DIRSETS = [["", "a/", "a/c/", "s/"], ["", "d1/", "d1/d2/", "d1/d2/d3/", "e/"], ["", "x/"], ["p/", "p/q/", "r/"],
            ["k/", "k/l/", "k/m/", "k/l/n/"]]
-TEXT_POOL = ["a<b>&amp;", "1 < 2 && 3 > 2", "<xi:include href='zz'/>", "\u00e9t\u00e9 <caf\u00e9>", "]]>&lt;",
+TEXT_POOL = ["  \n", " ","a<b>&amp;", "1 < 2 && 3 > 2", "<xi:include href='zz'/>", "\u00e9t\u00e9 <caf\u00e9>", "]]>&lt;",
              "\u20ac 5 <\U0001F600>", "plain", "", "x\ny", "\u00ff\u00fe<&>"]
 ENCODINGS = [("UTF-8", "utf-8"), ("UTF-16LE", "utf-16-le"), ("UTF-16BE", "utf-16-be"), ("ISO-8859-1", "latin-1")]
 
@@ -286,6 +292,9 @@ class Case:
                 out.append(("T", self.rnd_text()))
             elif k < 0.45:
                 out.append(("C", r.choice([" c ", "note", "x"])))
+            elif k < 0.5:
+                out.append(("P", r.choice(["pi", "style"]), r.choice(["a b", "x='1'"])))
+                self.features.add("processing-instruction")
             else:
                 out.append(self.elem(base, depth + 1, []))
         return out
@@ -332,6 +341,83 @@ class Case:
         inner = gens[:k]
         rest = gens[k:]
         return self.elem(base, depth, rest + [lambda b: self.wrap(b, inner, depth + 1)])
+
+
+WS = [" ", "\n", "\n  ", "\t", "\n\n    "]
+
+
+def fallback_shape(c, b, docs, missing, tpaths, depth=0):
+    """children of an xi:fallback in one of the shapes that matter where the xi:include is the document element:
+    indented (white-space text before / between / after), one or several elements, only text, only comments, nothing,
+    a text inclusion, a nested xi:include with its own (indented) fallback"""
+    r = c.rng
+    ws = lambda: ("T", r.choice(WS))
+    el = lambda: E(r.choice([0, 0, 3]), r.choice("rstu"), [(0, "ref", "k.txt")] if r.random() < 0.3 else [],
+                   [("T", "x")] if r.random() < 0.5 else [])
+    shape = r.choice(["one", "one-indented", "one-indented", "two", "two-indented", "text-only", "ws-only", "comments-only",
+                      "nothing", "text+element", "comment+element-indented", "nested", "nested-indented", "textinc+element",
+                      "included-doc", "pi+element", "vanishing-include+element"])
+    if depth >= 3 and shape.startswith("nested"):
+        shape = "one-indented"
+    c.features.add("fallback-shape-" + shape)
+    if shape == "one":
+        return [el()]
+    if shape == "one-indented":
+        return [ws(), el(), ws()]
+    if shape == "two":
+        return [el(), el()]
+    if shape == "two-indented":
+        return [ws(), el(), ws(), el(), ws()]
+    if shape == "text-only":
+        return [("T", r.choice(["some text", " t ", "x"]))]
+    if shape == "ws-only":
+        return [ws()]
+    if shape == "comments-only":
+        return [ws(), ("C", " only "), ws(), ("C", "2")]
+    if shape == "nothing":
+        return []
+    if shape == "text+element":
+        return [("T", r.choice(["t", " lead "])), el()]
+    if shape == "comment+element-indented":
+        return [ws(), ("C", " c "), ws(), el(), ws(), ("C", "d")]
+    if shape == "pi+element":
+        return [ws(), ("P", "fb", "pi"), ws(), el(), ws()]
+    if shape == "textinc+element":
+        if tpaths:
+            return [c.text_include(b, r.choice(tpaths)), el()]
+        return [ws(), el()]
+    if shape == "vanishing-include+element":
+        # legal in the end (one element), but two elements at the moment the fragment is inserted (finding C20-F8)
+        van = c.include(b, r.choice(missing), kids=[c.fallback(r.choice([[], [ws()], [("C", "gone")]]))])
+        return [ws(), van, ws(), el()] if r.random() < 0.5 else [el(), van]
+    if shape == "included-doc":
+        if docs:
+            return [ws(), c.include(b, r.choice(docs)), ws()]
+        return [ws(), el(), ws()]
+    inner = c.include(b, r.choice(missing), kids=[ws(), c.fallback(fallback_shape(c, b, docs, missing, tpaths, depth + 1)), ws()]
+                      if shape == "nested-indented" else [c.fallback(fallback_shape(c, b, docs, missing, tpaths, depth + 1))])
+    return [ws(), inner, ws()] if shape == "nested-indented" else [inner]
+
+
+def doc_shape_root(c, me, docs, missing, tpaths):
+    """the top document of a `docshape` case: position of the xi:include (document element / first child of the root /
+    nested deep) x shape of what replaces it (an included document or a fallback of any shape)"""
+    r = c.rng
+    if docs and r.random() < 0.3:
+        inc = lambda b: c.include(b, r.choice(docs), kids=[c.fallback(fallback_shape(c, b, docs, missing, tpaths))]
+                                  if r.random() < 0.4 else [])
+        c.features.add("docshape-replaced-by-document")
+    else:
+        inc = lambda b: c.include(b, r.choice(missing), kids=[("T", r.choice(WS))] * r.randrange(0, 2) +
+                                  [c.fallback(fallback_shape(c, b, docs, missing, tpaths))] + [("T", r.choice(WS))] * r.randrange(0, 2))
+        c.features.add("docshape-replaced-by-fallback")
+    pos = r.choice(["document-element"] * 5 + ["first-child", "first-child", "deep"])
+    c.features.add("docshape-position-" + pos)
+    if pos == "document-element":
+        return inc(me)
+    if pos == "first-child":
+        return E(0, "root", [], [inc(me), ("T", "tail"), E(0, "z")])
+    return E(0, "root", [], [("T", "\n "), E(3, "deep", [], [("C", "c"), E(0, "deeper", [], [("T", "t"), inc(me), ("T", " ")])])])
 
 
 def gen_case(rng, kind):
@@ -512,7 +598,15 @@ def gen_case1(rng, kind):
                     root = c.wrap(resolve(me, xb), gens)
                     root = (root[0], root[1], root[2], [a for a in root[3] if a[0] != 2] + [(2, "base", xb)], root[4])
                     c.features.add("included-root-with-xmlbase")
+        if kind == "docshape" and i == 0:
+            root = doc_shape_root(c, me, paths[1:], missing, tpaths)
         nodes = [root]
+        if rng.random() < (0.3 if kind != "docshape" else 0.6):
+            nodes.insert(0, ("P", "top", "before"))
+            c.features.add("top-level-pi")
+        if rng.random() < (0.2 if kind != "docshape" else 0.5):
+            nodes.append(("P", "top", "after"))
+            c.features.add("top-level-pi")
         if rng.random() < 0.3:
             nodes.insert(0, ("C", " before "))
             c.features.add("top-level-comment")
@@ -576,7 +670,8 @@ def fs_token(c, for_spec=False, light=False):
 def file_bytes(c):
     out = {}
     for p, nodes in c.docs.items():
-        out[p] = ('<?xml version="1.0" encoding="UTF-8"?>\n' + ser_xml(nodes)).encode("utf-8")
+        sep = ["", "\n", "\n  \n", " \t"][sum(map(ord, p)) % 4]
+        out[p] = ('<?xml version="1.0" encoding="UTF-8"?>\n' + ser_xml(nodes, True, sep) + (sep and "\n")).encode("utf-8")
     for p, (s, label, codec, declare) in c.texts.items():
         out[p] = s.encode(codec)
     # directories that exist: the parents of every file and every directory that an intended xml:base names
@@ -654,6 +749,11 @@ def spec_verdict(spec, ans):
     if len(ans) > 3 and ans[3].startswith("Q[BAD"):
         # whatever the tree looks like when walked from the document node: the DOM left behind is inconsistent
         return False, "the resulting DOM is inconsistent or unusable: " + ans[3]
+    if ans[1]:
+        # XInclude problems are to be reported through the error handler; an exception that leaves parse() /
+        # doXIncludeDOMProcess is neither a merged tree nor a report (findings C20-F8 / C20-F9 when the model mirrors it)
+        return False, "an exception escapes: " + ans[1] + ("; the Spec accepts the document" if spec.startswith("S ok")
+                                                           else "; the Spec: fatal error " + spec[6:])
     if spec.startswith("S err"):
         if not fatal(ans):
             return False, "the Spec demands a fatal error (%s), none was reported" % spec[6:]
@@ -708,7 +808,7 @@ def flags_with(toggle):
 
 
 CASE_KINDS = [("plain", 22), ("text", 10), ("missing", 12), ("clean-missing", 6), ("unusedfb", 12), ("invalid", 10),
-              ("rootinc", 16), ("bigtext", 4), ("rootbase", 5), ("cycle1", 5), ("cycle2", 5), ("cycle3", 4), ("cycle4", 3),
+              ("rootinc", 14), ("docshape", 16), ("bigtext", 4), ("rootbase", 5), ("cycle1", 5), ("cycle2", 5), ("cycle3", 4), ("cycle4", 3),
               ("cycle5", 3), ("mixed", 3)]
 
 
@@ -882,6 +982,19 @@ def _correspond(ctx, xm, xh, work, acc, chunk):
                                   E(1, "fallback", [], [E(0, "p", [], [("T", "t"), E(0, "q", [], [
                                       E(1, "include", [(0, "href", "missing.xml")], [])])])])])])],
                                                          "w/ok.xml": [E(0, "k")]}),
+                              # document element replaced by an indented fallback: white space, element, white space
+                              ("witness-root-indented-fallback", {"w/f0.xml": [("C", " c0 "), ("P", "pi0", "x"), E(1, "include", [(0, "href", "nope.xml")], [
+                                  ("T", "\n "), E(1, "fallback", [], [("T", "\n  "), E(0, "r"), ("T", "\n ")]), ("T", "\n")]), ("C", " c9 ")]}),
+                              # ... nested fallbacks, indented
+                              ("witness-root-nested-fallback", {"w/f0.xml": [E(1, "include", [(0, "href", "nope.xml")], [E(1, "fallback", [], [
+                                  ("T", "\n "), E(1, "include", [(0, "href", "nope2.xml")], [E(1, "fallback", [], [("T", "\n  "), E(0, "n"), ("T", " ")])]),
+                                  ("T", "\n")])])]}),
+                              # C20-F9: two elements / text at the document element position
+                              ("witness-F9", {"w/f0.xml": [E(1, "include", [(0, "href", "nope.xml")], [E(1, "fallback", [], [
+                                  E(0, "r"), E(0, "s")])])]}),
+                              # C20-F8: legal in the end, refused on the way
+                              ("witness-F8", {"w/f0.xml": [E(1, "include", [(0, "href", "nope.xml")], [E(1, "fallback", [], [
+                                  E(1, "include", [(0, "href", "nope2.xml")], [E(1, "fallback", [], [("C", "gone")])]), E(0, "r")])])]}),
                               # two xi:fallback children are an error also when the resource can be obtained (3.1)
                               ("witness-twofb-resolvable", {"w/f0.xml": [E(0, "r", [], [E(1, "include", [(0, "href", "ok.xml")], [
                                   E(1, "fallback", [], [("T", "1")]), E(1, "fallback", [], [])])])],
@@ -964,7 +1077,7 @@ def _correspond(ctx, xm, xh, work, acc, chunk):
     divergences = []
     repaired_n = acc.setdefault("repaired", {})
     verdicts = acc.setdefault("verdicts", {"spec-ok": 0, "spec-error": 0})
-    finding_hits = {"C20-F1": [], "C20-F2": [], "C20-F4": [], "C20-F5": [], "C20-F7": []}
+    finding_hits = {"C20-F1": [], "C20-F2": [], "C20-F4": [], "C20-F5": [], "C20-F7": [], "C20-F8": [], "C20-F9": []}
     unexplained_spec = []
     for (k, m, line), i, mo in zip(reqs, impl, model):
         kind, cdir, top, fstok, files, feats, relaxed = cases[k]
@@ -1005,6 +1118,10 @@ def _correspond(ctx, xm, xh, work, acc, chunk):
             return a is not None and spec_verdict(sp, a)[0]
         if sp == "S err RootShape" and not fatal(ia) and "(" not in ia[2]:
             finding_hits["C20-F5"].append((k, m, why))        # the result has no document element at all
+            continue
+        if ia[1] == "X:DOMException:3":
+            # impl == model: DOMDocumentImpl refuses the replacement of the document element and the exception escapes
+            finding_hits["C20-F8" if sp.startswith("S ok") else "C20-F9"].append((k, m, why))
             continue
         for t in toggles(m):
             if all(c not in CURRENT for c in t) and sat(alt(k, m, t)):
@@ -1074,6 +1191,13 @@ FINDING_TEXTS["C20-F7"] = ("whether the included document element needs an xml:b
 FINDING_TEXTS["C20-F4"] = ("the href is appended to the directory of the base URI and opened without removing 'seg/..': a "
                    "reference like ../x fails when the base names a directory that does not exist (xml:base), "
                    "although it resolves to an existing file")
+FINDING_TEXTS["C20-F8"] = ("an xi:include that is the document element is replaced through a DocumentFragment *before* the "
+                           "replacement is processed: when the fragment holds two elements of which one is an xi:include "
+                           "that later vanishes or becomes text/comments (so that the final result is a legal document), "
+                           "DOMDocumentImpl refuses it and DOMException(HIERARCHY_REQUEST_ERR) leaves parse()")
+FINDING_TEXTS["C20-F9"] = ("an illegal replacement of the document element (two elements, text that is not white space; "
+                           "XInclude 4.5.1: fatal error) is not reported through the error handler: "
+                           "DOMException(HIERARCHY_REQUEST_ERR) escapes from parse() / parseURI() / doXIncludeDOMProcess")
 FINDING_TEXTS["C20-F5"] = ("an xi:include that is the document element and is replaced by nothing (empty xi:fallback) leaves a "
                    "document without document element and no error is reported (XInclude 4.5.1 demands a fatal error)")
 
